@@ -425,7 +425,8 @@ fn step(r: &mut Runner, rng: &mut Rng, g: &mut Gen) -> bool {
             else if mode < 98 { rg(rng, c + 1, (la + 1).max(c + 1)) }
             else if mode < 99 { rg(rng, fi.saturating_sub(1), c.max(1)) }
             else { la + 2 + rng.below(2) };
-        let n = if rng.chance(5) { 0 } else { 1 + rng.below(4) };
+        // now and then a long burst, so that later conflicts fall strictly inside a long unstable tail
+        let n = if rng.chance(5) { 0 } else if rng.chance(4) { 30 + rng.below(50) } else { 1 + rng.below(4) };
         let mut t = if start == la + 1 { term_of(l, la).max(g.term_now) } else { g.term_now };
         let mut es = vec![];
         for j in 0..n {
